@@ -135,7 +135,7 @@ func build(id string, race bool) string {
 	bin := filepath.Join(bdir, "props.test")
 	args := []string{"test", "-c", "-o", bin}
 	cleanup := func() {}
-	if !race && repoDir != "/repo" {
+	if !race && !usesDialSeam(id) && repoDir != "/repo" {
 		mf, err := altModfile(simDir, repoDir)
 		if err != nil {
 			infra("%v", err)
@@ -143,9 +143,14 @@ func build(id string, race bool) string {
 		cleanup = func() { os.Remove(mf); os.Remove(strings.TrimSuffix(mf, ".mod") + ".sum") }
 		args = []string{"test", "-c", "-modfile=" + mf, "-o", bin}
 	}
-	if race {
-		bin = filepath.Join(bdir, "props-race.test")
-		scratch, mf, err := instrument(simDir)
+	if race || usesDialSeam(id) {
+		bin = filepath.Join(bdir, "props-dial.test")
+		tags := []string{"-tags", "simdial"}
+		if race {
+			bin = filepath.Join(bdir, "props-race.test")
+			tags = []string{"-race", "-tags", "simhook"}
+		}
+		scratch, mf, err := instrument(simDir, race)
 		cleanup = func() {
 			if scratch != "" {
 				os.RemoveAll(scratch)
@@ -159,7 +164,7 @@ func build(id string, race bool) string {
 			cleanup()
 			infra("instrumenting scratch copy: %v", err)
 		}
-		args = []string{"test", "-c", "-race", "-tags", "simhook", "-modfile=" + mf, "-o", bin}
+		args = append(append([]string{"test", "-c"}, tags...), "-modfile="+mf, "-o", bin)
 	}
 	args = append(args, "./props")
 	out, err := run(simDir, goEnv(), goBin(), args...)
@@ -265,6 +270,10 @@ func workers() int {
 }
 
 func isRace(id string) bool { return id == "C13" }
+
+// usesDialSeam: checks whose scenarios include go-mail's default dialers (net.Dialer / tls.Dialer
+// rewritten to the simulated network in a scratch copy, see instrument).
+func usesDialSeam(id string) bool { return id == "C07" || id == "C17" || id == "C19" }
 
 func checkCmd(id, tier string, seed uint64) int {
 	start := time.Now()
